@@ -24,6 +24,14 @@ pub struct Case {
     pub spec: RunSpec,
     pub expect_exit: i32,
     pub tokens: Vec<u32>,
+    /// cases with the same non-empty group differ only in how long the background scan takes (and in
+    /// hash seed / delivery): what delta renders must be identical within the group
+    #[serde(default)]
+    pub group: String,
+    /// the rendering must show that the calling process was recognised (an SGR sequence inside the
+    /// first content line: syntax highlighting by the file name taken from `git show rev:file`)
+    #[serde(default)]
+    pub must_highlight: bool,
 }
 
 pub fn cases(seed: u64, n_random: usize) -> Vec<Case> {
@@ -54,7 +62,7 @@ pub fn cases(seed: u64, n_random: usize) -> Vec<Case> {
                 }
                 let mut spec = base(vec!["--no-gitconfig".into(), "--width".into(), "100".into(), "--paging".into(), paging.into(), opt.into(), w.into()]);
                 spec.stdin = diff.clone().into();
-                out.push(Case { name: format!("stdin {} {} paging={}", opt, w, paging), spec, expect_exit: 0, tokens: tokens.clone() });
+                out.push(Case { name: format!("stdin {} {} paging={}", opt, w, paging), spec, expect_exit: 0, tokens: tokens.clone(), group: String::new(), must_highlight: false });
             }
         }
     }
@@ -64,12 +72,40 @@ pub fn cases(seed: u64, n_random: usize) -> Vec<Case> {
         let mut spec = base(vec!["--no-gitconfig".into(), "--width".into(), "100".into(), "--paging".into(), "never".into(), a.into(), b.into()]);
         spec.files = vec![(a.into(), Blob::from("one\n")), (b.into(), Blob::from("two\n"))];
         spec.child = Some(ChildSetup { names: vec!["git".into(), "diff".into()], stdout: diff.clone().into(), stderr: Blob::default(), stderr_first: false, exit: 1, git_version: "git version 2.45.1".into() });
-        out.push(Case { name: format!("two files {} {}", a, b), spec, expect_exit: 1, tokens: tokens.clone() });
+        out.push(Case { name: format!("two files {} {}", a, b), spec, expect_exit: 1, tokens: tokens.clone(), group: String::new(), must_highlight: false });
     }
+    // delta as the child of `git show HEAD:file` / `git blame file` / `git grep`: the real scan of the
+    // process table finds the producer; the scan is made to end before or long after the main
+    // thread's first queries (0 ms / 900 ms), and the input arrives at once or line by line
+    let show_input = "fn main() {\n    let x = \"T000900 str\";\n    // T000901\n}\n";
+    for (gi, (parent, input, toks, hl)) in [
+        (vec!["git", "show", "HEAD:src/sample.rs"], show_input.to_string(), vec![900u32, 901], true),
+        (vec!["git", "blame", "src/sample.rs"], String::from_utf8_lossy(&gen::blame_input(&mut rng, 6)).to_string(), (0..6u32).collect::<Vec<_>>(), false),
+        (vec!["git", "grep", "-n", "fn"], String::from_utf8_lossy(&gen::grep_input(&mut rng, 6)).to_string(), (0..6u32).collect::<Vec<_>>(), false),
+    ]
+    .into_iter()
+    .enumerate()
+    {
+        for delay in [0i64, 900] {
+            for chunks in [vec![], vec![1i64, 64]] {
+                let mut spec = base(vec!["--no-gitconfig".into(), "--width".into(), "100".into(), "--paging".into(), "never".into()]);
+                spec.stdin = input.clone().into();
+                spec.parent_cmdline = Some(parent.iter().map(|x| x.to_string()).collect());
+                spec.plan.scan_delay_ms = delay;
+                spec.plan.rchunks = chunks.clone();
+                out.push(Case { name: format!("child of `{}`, scan takes {} ms, chunks {:?}", parent.join(" "), delay, chunks), spec, expect_exit: 0, tokens: toks.clone(), group: format!("piped-{}", gi), must_highlight: hl });
+            }
+        }
+    }
+    let n_fixed = out.len();
     // random delivery schedules / hash seeds on top
     let n0 = out.len();
+    let _ = n_fixed;
     for i in 0..n_random {
         let mut c = out[i % n0].clone();
+        if !c.group.is_empty() {
+            continue; // the grouped cases compare outputs: keep their delivery as constructed
+        }
         c.spec.plan.seed = rng.below(1_000_000);
         c.spec.plan.rchunks = vec![*rng.pick(&[1i64, 7, 64, 4096]), 0, *rng.pick(&[3i64, 100])];
         c.name = format!("{} (schedule {})", c.name, i);
@@ -79,7 +115,23 @@ pub fn cases(seed: u64, n_random: usize) -> Vec<Case> {
 }
 
 pub fn check_case(env: &Env, ctx: &Ctx, c: &Case) -> Option<Violation> {
-    let r = run(env, &c.spec, &ctx.dir.join("run"), false).ok()?;
+    check_case_out(env, ctx, c).0
+}
+
+pub fn check_case_out(env: &Env, ctx: &Ctx, c: &Case) -> (Option<Violation>, Vec<u8>) {
+    match run(env, &c.spec, &ctx.dir.join("run"), false) {
+        Ok(r) => {
+            let mut got = r.stdout.clone();
+            if let Some(p) = &r.pager_received {
+                got.extend_from_slice(p);
+            }
+            (check_result(c, &r), got)
+        }
+        Err(_) => (None, vec![]),
+    }
+}
+
+fn check_result(c: &Case, r: &RunResult) -> Option<Violation> {
     if r.timed_out {
         return Some(Violation::new("T-terminates", "e1:hang", format!("`delta {}` did not terminate: blocked forever (case: {})", c.spec.args.join(" "), c.name)));
     }
@@ -94,6 +146,15 @@ pub fn check_case(env: &Env, ctx: &Ctx, c: &Case) -> Option<Violation> {
     if let Some(m) = c.tokens.iter().find(|t| !toks.contains(t)) {
         return Some(Violation::new("T-terminates", "e1:not-rendered", format!("`delta {}`: input line with token T{:06} was never rendered", c.spec.args.join(" "), m)));
     }
+    if c.must_highlight {
+        // `fn main() {` rendered with syntax highlighting has an escape sequence between `fn` and `main`
+        let text = String::from_utf8_lossy(&got).to_string();
+        let first = text.lines().find(|l| l.contains("main")).unwrap_or("");
+        let plain_fn_main = strip_ansi(first.as_bytes()) == first.as_bytes() || first.contains("fn main");
+        if plain_fn_main {
+            return Some(Violation::new("S-same-answer", "e1:caller-not-recognised", format!("[{}] the calling process `{}` was not used for the first line: it is rendered without the language of the file ({:?})", c.name, c.spec.parent_cmdline.clone().unwrap_or_default().join(" "), first)));
+        }
+    }
     None
 }
 
@@ -106,7 +167,16 @@ pub fn main_c20(env: &Env, tier: &str, seed: u64, replay: Option<&str>) -> i32 {
             None => return 2,
         };
         let case: Case = serde_json::from_value(v["case"].clone()).unwrap();
-        return match check_case(env, &ctx0, &case) {
+        let mut verdict = check_case(env, &ctx0, &case);
+        if verdict.is_none() && !v["reference_case"].is_null() {
+            let refc: Case = serde_json::from_value(v["reference_case"].clone()).unwrap();
+            let a = check_case_out(env, &ctx0, &case).1;
+            let b = check_case_out(env, &ctx0, &refc).1;
+            if a != b {
+                verdict = Some(Violation::new("S-same-answer", "e1:rendering-depends-on-scan-timing", format!("[{}] renders differently from [{}]", case.name, refc.name)));
+            }
+        }
+        return match verdict {
             Some(x) => {
                 println!("VIOLATION property=C20 replay={}", path);
                 println!("  oracle={} {}", x.oracle, x.message);
@@ -119,7 +189,27 @@ pub fn main_c20(env: &Env, tier: &str, seed: u64, replay: Option<&str>) -> i32 {
         };
     }
     let cs = cases(seed, if tier == "thorough" { 2000 } else { 60 });
-    let results = par_map(&env.scratch, &cs, &|ctx, _i, c: &Case| check_case(env, ctx, c));
+    let results_full = par_map(&env.scratch, &cs, &|ctx, _i, c: &Case| check_case_out(env, ctx, c));
+    let mut results: Vec<Option<Option<Violation>>> = results_full.iter().map(|r| r.as_ref().map(|x| x.0.clone())).collect();
+    // schedule independence on the real binary: within a group every rendering is the same
+    let mut first_of_group: std::collections::BTreeMap<String, usize> = std::collections::BTreeMap::new();
+    for (i, c) in cs.iter().enumerate() {
+        if c.group.is_empty() {
+            continue;
+        }
+        let out_i = results_full[i].as_ref().map(|x| x.1.clone()).unwrap_or_default();
+        match first_of_group.get(&c.group) {
+            None => {
+                first_of_group.insert(c.group.clone(), i);
+            }
+            Some(&j) => {
+                let out_j = results_full[j].as_ref().map(|x| x.1.clone()).unwrap_or_default();
+                if out_i != out_j && results[i].as_ref().map(|x| x.is_none()).unwrap_or(true) {
+                    results[i] = Some(Some(Violation::new("S-same-answer", "e1:rendering-depends-on-scan-timing", format!("[{}] renders differently from [{}]: the answer about the calling process depended on when the background scan finished", c.name, cs[j].name))));
+                }
+            }
+        }
+    }
     let known = load_known();
     let mut exit = 0;
     let mut reported = 0;
@@ -132,13 +222,21 @@ pub fn main_c20(env: &Env, tier: &str, seed: u64, replay: Option<&str>) -> i32 {
             if reported >= 3 {
                 continue;
             }
-            // confirm by re-execution
-            if check_case(env, &ctx0, &cs[i]).is_none() {
+            // confirm by re-execution (group comparisons: re-run both members)
+            if v.signature == "e1:rendering-depends-on-scan-timing" {
+                let j = first_of_group[&cs[i].group];
+                let a = check_case_out(env, &ctx0, &cs[i]).1;
+                let b = check_case_out(env, &ctx0, &cs[j]).1;
+                if a == b {
+                    eprintln!("NOTE: violation did not reproduce, not reported: {}", v.message);
+                    continue;
+                }
+            } else if check_case(env, &ctx0, &cs[i]).is_none() {
                 eprintln!("NOTE: violation did not reproduce, not reported: {}", v.message);
                 continue;
             }
             reported += 1;
-            let path = write_replay("C20", &format!("E1-{}-{}", v.oracle, reported), &json!({"property": "C20", "engine": "E1-proc", "seed": seed, "oracle": v.oracle, "signature": v.signature, "message": v.message, "case": cs[i]}));
+            let path = write_replay("C20", &format!("E1-{}-{}", v.oracle, reported), &json!({"property": "C20", "engine": "E1-proc", "seed": seed, "oracle": v.oracle, "signature": v.signature, "message": v.message, "case": cs[i], "reference_case": if cs[i].group.is_empty() { serde_json::Value::Null } else { json!(cs[first_of_group[&cs[i].group]]) }}));
             println!("VIOLATION property=C20 replay={}", path.display());
             println!("  oracle={} {}", v.oracle, v.message);
             exit = 1;
@@ -147,7 +245,7 @@ pub fn main_c20(env: &Env, tier: &str, seed: u64, replay: Option<&str>) -> i32 {
     let mut ev = Evidence::new("C20", tier, seed, "exploration");
     ev.evaluations = cs.len() as u64;
     ev.distinct_nontrivial = cs.len() as u64;
-    ev.rule = "E1 part: one evaluation = one execution of the real binary (real main(), real background thread, uncontrolled OS scheduling) with arguments that look like launchable commands (rg, git, ...) in positions where they are option values or file operands; the oracle is termination with the expected status and complete rendering. distinct_nontrivial = distinct (argument pattern, hash seed, delivery schedule) cases.".into();
+    ev.rule = "E1 part: one evaluation = one execution of the real binary (real main(), real background thread, real scan of the process table). (a) arguments that look like launchable commands (rg, git, ...) in positions where they are option values or file operands: termination with the expected status and complete rendering; (b) delta started as the child of a process whose command line is `git show HEAD:file` / `git blame file` / `git grep ..` (a copy of /bin/sh under the name git), with the background scan ending before or 900 ms after the first queries (real sleep injected by the shim at the scan's first read) and the input delivered at once or in small chunks: the rendering must be identical for every timing and must show that the caller was recognised. distinct_nontrivial = distinct (argument pattern, hash seed, delivery schedule) cases.".into();
     ev.violations = reported as u64;
     ev.samples = cs.iter().take(3).map(|c| json!({"name": c.name, "args": c.spec.args})).collect();
     ev.extra.insert("engine".into(), json!("E1-proc"));
